@@ -238,6 +238,7 @@ def execute(plan):
     U_rx, U_tx = plan["users"]
     switched = False
     tx_count = 0
+    held = []
     last_kind = None
 
     def viol(inv, step, detail, **sig):
@@ -423,6 +424,19 @@ def execute(plan):
                             kind, tx_count, "switched" if switched else "direct", n, "" if o == "time" else ", fft %d sel %s" % (fft, op["sel"]),
                             "convolution" if o == "time" else "per-block DFT product", e), op=o, pathloss=pl is not None)
                         break
+                # what earlier transmissions returned belongs to the caller: the received signals and the responses reported
+                # for them must not be rewritten by this transmission ("the response reported FOR THAT transmission")
+                for (st0, what, obj_, cp) in held:
+                    cur_ = np.asarray(obj_.tap_values) if what == "response" else np.asarray(obj_)
+                    if cur_.shape != cp.shape or not np.array_equal(cur_, cp):
+                        viol("convolution", step, "the %s of the transmission of step %d was rewritten by a later transmission" % (what, st0), op=o, held=what)
+                        break
+                if res["status"] != "ok":
+                    break
+                held.append((step, "received signal", y if not multi else y[0], np.array(y if not multi else y[0], copy=True)))
+                ir_ = ch.get_last_impulse_response(0, 0) if multi else ch.get_last_impulse_response()
+                held.append((step, "response", ir_, np.array(ir_.tap_values, copy=True)))
+                del held[:-6]
                 log.add(o, n, switched, np.round(np.asarray(y[0] if multi else y).ravel()[:3], 6))
                 res["state_keys"].append("%s|%s|%s|sw=%s|pl=%s|prev=%s|sel=%s" % (kind, plan["gen"], o, switched, pl is not None, last_kind,
                                                                                  "-" if o == "time" else ("none" if op["sel"] is None else list(op["sel"])[0])))
